@@ -331,7 +331,28 @@ func runC01Wire(c *Ctx) {
 				c.R.Violate(rig.Violation{Sig: "parse-panic|" + panicClass(pv), Detail: fmt.Sprintf("accessor panic on delivered line for %q: %v", e.Raw, pv), Case: Case("wire", idx)})
 			}
 		}
-		s.Conn.Close()
+		if !bad && (base/sessLen)%2 == 0 {
+			// the link dies in the middle of a message: the piece that arrived is no message, nothing may be delivered
+			s.mu.Lock()
+			got = nil
+			s.mu.Unlock()
+			s.Conn.HandleFunc("FRAG", handler)
+			disc := make(chan struct{}, 1)
+			s.Conn.HandleFunc(client.DISCONNECTED, func(_ *client.Conn, l *client.Line) { disc <- struct{}{} })
+			frag := "@k=v :nick!user@host.example FRAG #chan :a message the link cut sh"
+			mc.SendBytes([]byte(frag[:len(frag)-(base/sessLen)%40]))
+			mc.SendEOF()
+			if waitCh(chanOf(disc)) {
+				s.mu.Lock()
+				if len(got) > 0 {
+					c.R.Violate(rig.Violation{Sig: "wire-fragment-delivered", Detail: fmt.Sprintf("the stream ended inside a message; a handler was given the line %q, which was never sent", got[0].Raw), Case: Case("wire", base)})
+				}
+				s.mu.Unlock()
+				c.R.Count("wire_sessions_cut_inside_a_message", 1)
+			}
+		} else {
+			s.Conn.Close()
+		}
 		s.Release()
 		if bad {
 			return
